@@ -1187,7 +1187,7 @@ theorem tail_call_simulates {k : Nat} {self h : String} {args : List Expr} (hh :
     (hrel : RelF m s rs cenv) (hseg : Seg s pre r.1.1 post) :
     SimT r.1.1 s₁ env D f₀ m s rs cenv (Ref.eval (k + 2) (.call (.sym h) args) cenv rs) := by
   obtain ⟨_, _, _, hA, hU, _, _, _, _, _, _, hV, _, _, _, _, _, _, _, _, _, hlow⟩ := fclaims (k + 1)
-  exact simT_selfcall hV hA hU (fclaimG (fun j hj => hlow j (Nat.lt_succ_of_lt hj)) hA) hh hhead hfa hself isFn c gs r hc hfn
+  exact simT_selfcall hV hA hU (fclaimH hlow hA) hh hhead hfa hself isFn c gs r hc hfn
     hkn hps hact hnargs hva hpa hrel hseg
 
 /-- **`CompileCorrect` for F2c**: program texts of top-level statements whose loops may `break`/`continue`
